@@ -40,7 +40,7 @@ fn alphabet(prop: &str, tier: Tier) -> Vec<Op> {
             for k in [0, 1, 2, 4] {
                 a.push(Op::DeletePrefix(k));
             }
-            a.extend([Op::Checkpoint, Op::Rollback, Op::Commit, Op::Refreeze(Persist::Plain)]);
+            a.extend([Op::Checkpoint, Op::Rollback, Op::Commit, Op::RollbackCheckpoint, Op::Refreeze(Persist::Plain)]);
             for k in [1, 2, 5] {
                 a.push(Op::GetMutToggle(k));
             }
@@ -78,7 +78,11 @@ fn alphabet(prop: &str, tier: Tier) -> Vec<Op> {
             ]);
             a.push(Op::GetMutToggle(2));
             a.push(Op::SetEntry(1, 2));
-            a.extend([Op::Checkpoint, Op::Rollback, Op::Commit]);
+            // values exactly at and just below the inline bound of 64 bytes
+            a.push(Op::Insert(1, 3));
+            a.push(Op::Insert(2, 4));
+            a.push(Op::SetEntry(2, 3));
+            a.extend([Op::Checkpoint, Op::Rollback, Op::Commit, Op::RollbackCheckpoint]);
         }
         "C15" => {
             // lock-relevant alphabet: up to 3 iterators on equal / nested / disjoint prefixes
@@ -100,7 +104,7 @@ fn alphabet(prop: &str, tier: Tier) -> Vec<Op> {
             }
             a.push(Op::GetMutToggle(2));
             a.push(Op::SetEntry(2, 0));
-            a.extend([Op::Checkpoint, Op::Rollback, Op::Commit]);
+            a.extend([Op::Checkpoint, Op::Rollback, Op::Commit, Op::RollbackCheckpoint]);
         }
         _ => unreachable!(),
     }
